@@ -165,6 +165,8 @@ fn matches_known<'a>(known: &'a [KnownFinding], signature: &str) -> Option<&'a K
     known.iter().find(|k| {
         if let Some(prefix) = k.signature.strip_suffix('*') {
             signature.starts_with(prefix)
+        } else if let Some(suffix) = k.signature.strip_prefix('*') {
+            signature.ends_with(suffix)
         } else {
             k.signature == signature
         }
@@ -317,6 +319,8 @@ pub fn run<P: Prop>(prop: &P, args: &RunArgs) -> i32 {
     // keep rooc's (and our own) panic messages out of the log: panics are caught and reported
     std::panic::set_hook(Box::new(|_| {}));
 
+    // stale replay files of earlier runs would be mistaken for current findings
+    let _ = std::fs::remove_dir_all(verif_root().join("replays").join(id));
     let total = prop.budget(args.tier);
     let fixed = prop.fixed_cases(args.tier);
     // replays of fixed defects and golden cases are part of the fixed set
@@ -413,6 +417,8 @@ pub fn run<P: Prop>(prop: &P, args: &RunArgs) -> i32 {
                         let json = serde_json::to_string(case).unwrap_or_default();
                         *slots[k].started.lock().unwrap() = Some((Instant::now(), json));
                         let outcome = guarded_check(prop, case);
+                        // one case can fail in several ways; the value tree can be shrunk for one of
+                        // them only (shrinking moves it), the others keep the unshrunk case
                         let mut tree = tree;
                         for (signature, detail0) in record(prop, res, case, outcome) {
                             if let Ok(path) = std::env::var("VERIF_DUMP_FAILS") {
@@ -426,7 +432,7 @@ pub fn run<P: Prop>(prop: &P, args: &RunArgs) -> i32 {
                                 res.failures.get_mut(&signature).unwrap().2 += 1;
                             } else {
                                 // shrink only the first case of each signature
-                                let (shrunk, detail, steps) = match tree.as_deref_mut() {
+                                let (shrunk, detail, steps) = match tree.take() {
                                     Some(tree) if matches_known(known, &signature).is_none() => {
                                         let touch = |c: &P::Case| {
                                             let json = serde_json::to_string(c).unwrap_or_default();
